@@ -248,6 +248,152 @@ def handleText (j : Json) : Except String Json := do
     return Json.mkObj [("ok", toJson ((Text.opbExport vals reqs).all (fun r => r.holds τ)))]
   | _ => throw s!"unknown text method {m}"
 
+/-! design / spec -/
+
+def getOptNat (j : Json) (k : String) : Except String (Option Nat) :=
+  match j.getObjVal? k with
+  | .ok Json.null => .ok none
+  | .ok v => match v.getNat? with
+    | .ok i => .ok (some i)
+    | .error e => .error e
+  | .error _ => .ok none
+
+def parseLevel (j : Json) : Except String LevelD := do
+  let tbl : Array Bool ← match j.getObjVal? "table" with
+    | .ok (.arr a) => a.mapM (fun x => match x with
+        | .bool b => Except.ok b
+        | .num _ => (do let n ← x.getNat?; pure (n != 0))
+        | _ => Except.error "bad table entry")
+    | _ => pure #[]
+  return { name := (← getStr j "name"), weight := (← getNat j "w"), table := tbl }
+
+def parseWindow (j : Json) : Except String (Option WindowD) :=
+  match j.getObjVal? "window" with
+  | .ok Json.null => .ok none
+  | .error _ => .ok none
+  | .ok w => do
+    return some { deps := (← getNats w "deps"), width := (← getNat w "width"), stride := (← getNat w "stride"),
+                  start := (← getOptNat w "start"), kind := (← getStr w "kind") }
+
+def parseFactor (j : Json) : Except String FactorD := do
+  let ls ← (← j.getObjValAs? (Array Json) "levels").toList.mapM parseLevel
+  return { id := (← getNat j "id"), name := (← getStr j "name"), levels := ls, window := (← parseWindow j) }
+
+def parseConstraint (j : Json) : Except String ConstraintD := do
+  let k ← getStr j "k"
+  match k with
+  | "Exclude" => return .exclude (← getNat j "f") (← getNat j "l")
+  | "Pin" => return .pin (← getInt j "idx") (← getNat j "f") (← getNat j "l")
+  | "MinimumTrials" => return .minTrials (← getNat j "n")
+  | "AtMostKInARow" => return .atMost (← getNat j "n") (← getNat j "f") (← getOptNat j "l")
+  | "AtLeastKInARow" => return .atLeast (← getNat j "n") (← getNat j "f") (← getOptNat j "l")
+  | "ExactlyKInARow" => return .exactlyInARow (← getNat j "n") (← getNat j "f") (← getOptNat j "l")
+  | "ExactlyK" => return .exactlyK (← getNat j "n") (← getNat j "f") (← getOptNat j "l")
+  | "Sequential" => return .sequential (← getNat j "f")
+  | _ => throw s!"unknown constraint {k}"
+
+def parseConstraints (j : Json) : Except String (List ConstraintD) := do
+  (← j.getObjValAs? (Array Json) "cs").toList.mapM parseConstraint
+
+def parseMode (s : String) : Except String Mode :=
+  match s with
+  | "weight" => .ok .weight | "repeat" => .ok .repeat | "equal" => .ok .equal
+  | _ => .error s!"bad mode {s}"
+
+def parseAlign (s : String) : Except String Alignment :=
+  match s with
+  | "post preamble" => .ok .postPreamble | "parallel start" => .ok .parallelStart
+  | "equal preamble" => .ok .equalPreamble
+  | _ => .error s!"bad alignment {s}"
+
+def parseOptAlign (j : Json) : Except String (Option Alignment) :=
+  match j.getObjVal? "align" with
+  | .ok (.str s) => do return some (← parseAlign s)
+  | _ => .ok none
+
+partial def parseBlock (j : Json) : Except String BlockExpr := do
+  let k ← getStr j "k"
+  match k with
+  | "cross" => return .cross (← getNats j "design") (← getNats j "crossing") (← parseConstraints j) (← getBool j "rcc")
+  | "multicross" =>
+    let cr ← j.getObjValAs? (Array (Array Nat)) "crossings"
+    return .multiCross (← getNats j "design") (cr.toList.map Array.toList) (← parseConstraints j) (← getBool j "rcc")
+      (← parseMode (← getStr j "mode")) (← parseAlign (← getStr j "align"))
+  | "repeat" => return .repeat (← parseBlock (← j.getObjVal? "b")) (← parseConstraints j)
+  | "merge" =>
+    let bs ← (← j.getObjValAs? (Array Json) "bs").toList.mapM parseBlock
+    return .merge bs (← parseConstraints j) (← parseMode (← getStr j "mode")) (← parseOptAlign j)
+  | "nest" =>
+    return .nest (← parseBlock (← j.getObjVal? "outer")) (← parseBlock (← j.getObjVal? "inner"))
+      (← parseConstraints j) (← parseOptAlign j)
+  | _ => throw s!"unknown block kind {k}"
+
+def parseDesign (j : Json) : Except String Design := do
+  let fs ← (← j.getObjValAs? (Array Json) "factors").toList.mapM parseFactor
+  return { factors := fs, block := (← parseBlock (← j.getObjVal? "block")) }
+
+def parseSeq (j : Json) : Except String Seq := do
+  let arr ← j.getArr?
+  arr.toList.mapM fun p => do
+    let pr ← p.getArr?
+    match pr with
+    | #[f, col] =>
+      let fid ← f.getNat?
+      let c ← col.getArr?
+      let entries ← c.toList.mapM fun e => match e with
+        | Json.null => Except.ok (none : Option Nat)
+        | _ => do let n ← e.getNat?; pure (some n)
+      return (fid, entries)
+    | _ => throw "bad seq column"
+
+def seqJson (s : Seq) : Json :=
+  Json.arr (s.map (fun p => Json.arr #[toJson p.1,
+    Json.arr (p.2.map (fun e => match e with | none => Json.null | some n => toJson n)).toArray])).toArray
+
+def geoJson (g : Spec.Geo) : Json :=
+  Json.mkObj [("n", toJson g.n), ("preambles", jNats g.preambles), ("sizes", jNats g.sizes),
+    ("weights", jNats (g.crossings.map (·.weight))), ("sustains", jNats (g.crossings.map (·.sustain))),
+    ("crossings", Json.arr (g.crossings.map (fun i => jNats i.factors)).toArray),
+    ("design", jNats g.design),
+    ("error", match g.error with | some e => toJson e | none => Json.null)]
+
+/-- names of the components of `Spec.valid` that fail (empty = valid) -/
+def explain (d : Design) (g : Spec.Geo) (s : Seq) : List String :=
+  let excl := Spec.excludedLevels g.constraints
+  (if g.error.isSome then ["design-error"] else []) ++
+  (if Spec.shapeOk d g s then [] else ["shape"]) ++
+  (if Spec.derivedOk d g s then [] else ["derived"]) ++
+  (if Spec.sustainOk g s then [] else ["sustain"]) ++
+  (if Spec.excludeOk g s excl then [] else ["exclude"]) ++
+  ((List.range g.crossings.length).filterMap (fun i =>
+    match g.crossings[i]?, g.preambles[i]?, g.sizes[i]? with
+    | some c, some p, some z => if Spec.crossingOk d g s excl c p z then none else some s!"crossing{i}"
+    | _, _, _ => some s!"crossing{i}?")) ++
+  ((List.range g.constraints.length).filterMap (fun i =>
+    match g.constraints[i]? with
+    | some sc =>
+      let ok := match sc.c with
+        | .sequential f => Spec.sequentialOk d g s f
+        | _ => (Spec.windowsOf g sc).all (fun w => Spec.holdsOn d g s sc w.1 w.2)
+      if ok then none else some s!"constraint{i}"
+    | none => none))
+
+def handleSpec (j : Json) : Except String Json := do
+  let m ← getStr j "m"
+  let d ← parseDesign (← j.getObjVal? "design")
+  let g := Spec.geo d d.block
+  match m with
+  | "geo" => return Json.mkObj [("ok", geoJson g)]
+  | "valid" =>
+    let seqs ← (← j.getObjValAs? (Array Json) "seqs").toList.mapM parseSeq
+    return Json.mkObj [("ok", Json.arr (seqs.map (fun s => toJson (explain d g s))).toArray)]
+  | "valid_seqs" =>
+    let cap ← getNat j "cap"
+    match Spec.validSeqs d cap with
+    | some l => return Json.mkObj [("ok", Json.arr (l.map seqJson).toArray)]
+    | none => return Json.mkObj [("ok", Json.null)]
+  | _ => throw s!"unknown spec method {m}"
+
 def handle (j : Json) : Except String Json := do
   let op ← getStr j "op"
   match op with
@@ -256,6 +402,7 @@ def handle (j : Json) : Except String Json := do
   | "logic" => handleLogic j
   | "comb" => handleComb j
   | "text" => handleText j
+  | "spec" => handleSpec j
   | _ => throw s!"unknown op {op}"
 
 partial def loop (h : IO.FS.Stream) (out : IO.FS.Stream) : IO Unit := do
